@@ -22,6 +22,12 @@ EXTENDS Naturals, Sequences, TLC
 Num(n)  == [k |-> "num", n |-> n, s |-> "", e |-> <<>>]
 Str(s)  == [k |-> "str", n |-> 0, s |-> s, e |-> <<>>]
 Null    == [k |-> "null", n |-> 0, s |-> "", e |-> <<>>]
+\* a literal that is neither an integer nor a string nor null: true, false, and number texts with a fraction or an exponent
+\* (s is its JSON text; what encoding/json decodes it to is tabulated in LitIface)
+Lit(s)  == [k |-> "lit", n |-> 0, s |-> s, e |-> <<>>]
+LitTexts == {"true", "false", "1.5", "-0.5", "1e3", "2.0"}
+LitIface(s) == CASE s = "1e3" -> "1000" [] s = "2.0" -> "2" [] OTHER -> s     \* float64 printed the way encoding/json prints it
+LitIsBool(s) == s \in {"true", "false"}
 Arr(es) == [k |-> "arr", n |-> 0, s |-> "", e |-> es]
 Obj(ps) == [k |-> "obj", n |-> 0, s |-> "", e |-> ps]
 Pair(key, v) == [key |-> key, val |-> v]
@@ -39,6 +45,7 @@ JoinPairs(ps, i) == IF i > Len(ps) THEN ""
 Render(v) == CASE v.k = "num"  -> ToString(v.n)
                [] v.k = "str"  -> "\"" \o v.s \o "\""
                [] v.k = "null" -> "null"
+               [] v.k = "lit"  -> v.s
                [] v.k = "arr"  -> "[" \o JoinVals(v.e, 1) \o "]"
                [] v.k = "obj"  -> "{" \o JoinPairs(v.e, 1) \o "}"
 
@@ -84,20 +91,24 @@ SortNR(v) == CASE v.k = "obj" -> Obj(SortPairs(v.e))
 
 \* Interface(): what encoding/json would decode the text into, rendered canonically:
 \* objects become Go maps (last duplicate wins) printed with sorted keys
-RECURSIVE IfaceRender(_)
+\* (num: the UseNumber conversions keep a number's text)
+RECURSIVE IfaceRenderX(_, _)
 DedupLast(ps) == SelectSeq([i \in 1..Len(ps) |-> [p |-> ps[i], last |-> \A j \in (i + 1)..Len(ps) : ps[j].key # ps[i].key]],
                            LAMBDA x : x.last)
-IfaceRender(v) ==
+IfaceRenderX(v, num) ==
   CASE v.k = "arr" -> "[" \o (LET RECURSIVE J(_)
-                                  J(i) == IF i > Len(v.e) THEN "" ELSE (IF i > 1 THEN "," ELSE "") \o IfaceRender(v.e[i]) \o J(i + 1)
+                                  J(i) == IF i > Len(v.e) THEN "" ELSE (IF i > 1 THEN "," ELSE "") \o IfaceRenderX(v.e[i], num) \o J(i + 1)
                               IN J(1)) \o "]"
     [] v.k = "obj" -> LET d == DedupLast(v.e)
                           ps == SortPairs([i \in 1..Len(d) |-> d[i].p])
                           RECURSIVE J(_)
                           J(i) == IF i > Len(ps) THEN ""
-                                  ELSE (IF i > 1 THEN "," ELSE "") \o "\"" \o ps[i].key \o "\":" \o IfaceRender(ps[i].val) \o J(i + 1)
+                                  ELSE (IF i > 1 THEN "," ELSE "") \o "\"" \o ps[i].key \o "\":" \o IfaceRenderX(ps[i].val, num) \o J(i + 1)
                       IN "{" \o J(1) \o "}"
+    [] v.k = "lit" -> IF num THEN v.s ELSE LitIface(v.s)
     [] OTHER -> Render(v)
+IfaceRender(v) == IfaceRenderX(v, FALSE)
+IfaceNumRender(v) == IfaceRenderX(v, TRUE)
 
 \* ---- operations ----
 \* op = [o |-> name, i |-> int, j |-> int, key |-> string, v |-> value]
